@@ -83,23 +83,20 @@ def judge_tree(case, obs):
     first = obs[0]
     texts = {(a["kind"], a["txt"]) for a in obs}
     if e["kind"] == "val":
-        if len(texts) > 1:
+        kinds = {a["kind"] for a in obs}
+        if len(kinds) > 1 or (kinds == {"val"} and len(texts) > 1):
             shown = sorted(texts)[:3]
             return ("violation", f"the result depends on parenthesisation/spacing/letter case: {shown}")
         if first["kind"] == "exc":
             return ("violation", f"well-formed expression raised {first['txt']}")
-        if e["ex"]:
-            want = f"{e['n']}/{e['d']}" if e["d"] != 1 else str(e["n"])
-            if first["kind"] != "val":
-                return ("violation", f"well-formed expression with value {want} gave {first['txt']!r}")
-            if not pfcommon.value_matches(first["frac"], e["n"], e["d"]):
-                return ("violation", f"value {first['txt']} but the documented semantics give {want}")
-            return ("ok", "")
-        # the model knows the value only roughly
         if first["kind"] == "err":
-            if "error near" in first["txt"]:
-                return ("violation", f"well-formed expression rejected: {first['txt']!r}")
-            return ("drift", f"arithmetic error {first['txt']!r} where the model predicts an (inexact) value")
+            if e["rk"]:
+                return ("drift", f"error {first['txt']!r} where the model predicts a value it knows only roughly")
+            want = (f"{e['n']}/{e['d']}" if e["d"] != 1 else str(e["n"])) if e["ex"] else "(inexact)"
+            return ("violation", f"well-formed expression with value {want} gave {first['txt']!r}")
+        if e["ex"] and not pfcommon.value_matches(first["frac"], e["n"], e["d"]):
+            want = f"{e['n']}/{e['d']}" if e["d"] != 1 else str(e["n"])
+            return ("violation", f"value {first['txt']} but the documented semantics give {want}")
         return ("ok", "")
     # the model predicts an in-band error (division by zero, domain, overflow)
     if first["kind"] == "exc":
@@ -142,8 +139,8 @@ def run_tree_cases(o: Outcome, cases, tag):
 def obs_record(a):
     if a["kind"] == "val":
         n, d, close = pfcommon.small_fraction(a["frac"])
-        return {"kind": "val", "n": n, "d": d, "close": close, "syntax": False}
-    return {"kind": a["kind"], "n": 0, "d": 1, "close": False, "syntax": "error near" in a["txt"]}
+        return {"kind": "val", "n": n, "d": d, "close": close}
+    return {"kind": a["kind"], "n": 0, "d": 1, "close": False}
 
 
 def validate_expr_trace(o: Outcome | None, events, cfg="Trace_Expr.cfg", name="Trace_Expr"):
@@ -347,7 +344,7 @@ def rand_call(rng):
     if fn in ("padleft", "padright"):
         return fn, [S(s), I(rng.randint(-2, 20)), S(rand_word(rng, 1, 3, inner))]
     if fn == "urlencode":
-        t = rand_word(rng, 0, 8, list("ab /:&=?%+"))
+        t = re.sub(" +", " ", rand_word(rng, 0, 8, list("ab /:&=?%+")))
         return fn, [S(t), {"k": "s", "s": [rng.choice(["QUERY", "WIKI", "PATH"])], "i": 0}]
     if fn == "#titleparts":
         t = "A" + rand_word(rng, 0, 8, list("bcd//"))
@@ -674,7 +671,7 @@ def selftest() -> int:
     print(f"Trace_StrFns: recorded rejected={len(b0)}; with #sub result corrupted: rejected={len(b1)} {b1[:1]}")
     ok &= (not b0) and len(b1) == 1 and b1[0]["i"] == 1
     # 3. G comparison: a corrupted expectation must be flagged
-    case = {"min": ["2", "*", "3"], "full": ["(", "2", ")", "*", "(", "3", ")"], "exp": {"kind": "val", "what": "", "ex": True, "n": 6, "d": 1}}
+    case = {"min": ["2", "*", "3"], "full": ["(", "2", ")", "*", "(", "3", ")"], "exp": {"kind": "val", "what": "", "ex": True, "n": 6, "d": 1, "rk": False}}
     obs = _eval_trees([case])[0]
     v0 = judge_tree(case, obs)[0]
     case["exp"]["n"] = 7
